@@ -32,7 +32,7 @@ func (e *Eng) hexDigit(nib *Term, upper bool) *Term {
 
 func (e *Eng) constBytes(s string) []*Term {
 	out := make([]*Term, len(s))
-	for i := range s {
+	for i := 0; i < len(s); i++ {
 		out[i] = e.tb.Const(8, uint64(s[i]))
 	}
 	return out
@@ -184,6 +184,13 @@ func (e *Eng) viewTerms(s SliceVal) []*Term {
 	out := make([]*Term, s.Len.C)
 	for i := range out {
 		out[i] = e.sliceAt(s, e.tb.I64(int64(i)))
+		if out[i] == nil {
+			var kinds []int
+			for n := s.Obj.cont; n != nil; n = n.prev {
+				kinds = append(kinds, n.kind)
+			}
+			panic(fmt.Sprintf("viewTerms: nil byte at %d, off=%v kinds=%v", i, s.Off, kinds))
+		}
 	}
 	return out
 }
@@ -275,7 +282,12 @@ func (e *Eng) sprintf(fr *frame, format string, args []Value) Value {
 	tb := e.tb
 	if allFixed {
 		var all []*Term
-		for _, p := range pieces {
+		for pi, p := range pieces {
+			for ti, t := range p.terms {
+				if t == nil {
+					panic(fmt.Sprintf("sprintf(%q): piece %d term %d nil (of %d); arg0=%T %v", format, pi, ti, len(p.terms), args[0].(Iface).V, args[0].(Iface).V))
+				}
+			}
 			all = append(all, p.terms...)
 		}
 		return e.strVal(e.termsSlice(all, "sprintf"))
@@ -411,6 +423,10 @@ func init() {
 		var args []Value
 		if a[1] != nil {
 			args = a[1].([]Value)
+		}
+		if fr.e.curHS != nil && fr.e.curHS.OpaqueFmt {
+			// crash-freedom harnesses do not look at formatted text: no forks on digit counts
+			return "<formatted:" + format + ">"
 		}
 		return fr.e.sprintf(fr, format, args)
 	}
